@@ -65,6 +65,12 @@ def families(tier, seed):
         def run(sh=sh, params=params):
             return harness.verify(cfn.h_make_functions, sh, params, kind='context')
         out.append(dict(name=f'make_functions (outputs listed in reverse, one twice) {sh.name}', run=run, label='per-shape'))
+        for form in ('set', 'iter', 'tuple', 'keys'):
+            params = dict(inputs=ins, vrs=outs, form=form)
+
+            def run(sh=sh, params=params):
+                return harness.verify(cfn.h_make_functions, sh, params, kind='context')
+            out.append(dict(name=f'make_functions (outputs given as {form}) {sh.name}', run=run, label='per-shape'))
         if k >= 2:
             # one declared output that the relation ignores
             params = dict(inputs=ins, vrs=outs, r_bits=ins + outs[:-1])
